@@ -173,6 +173,11 @@ def check_property(prop, tier="quick", only_units=None):
         mine = [t for t in ct if prop in t["props"] and t["counted"]]
         failed_tags = {(f["tag"], f["fn"]) for f in r.failures if f["tag"] and prop in f["props"]}
         failed_tagnames = {f["tag"] for f in r.failures if f["tag"] and prop in f["props"]}
+        # obligations listed as open known findings are reported separately (KNOWN-FINDING lines) and
+        # are excluded from both counts: they are neither discharged nor new violations
+        known_tagnames = {f["tag"] for f in r.failures if f["tag"] and prop in f["props"] and is_known(f, prop, known)}
+        mine = [t for t in mine if t["name"] not in known_tagnames]
+        failed_tagnames = failed_tagnames - known_tagnames
         n_obl = len(mine)
         n_fail = len({t["name"] for t in mine if t["name"] in failed_tagnames})
         verified_fns = [it for it in r.items if it["mode"] == "verified"]
